@@ -21,6 +21,9 @@ type Case struct {
 	Key      string   `json:"key"`
 	Paths    []string `json:"paths"`
 	Accepts  []string `json:"accepts"`
+	// HVersions: the header matcher's list when it differs from Versions: the same names plus the empty
+	// version (a header without the parameter), which the path matcher refuses
+	HVersions []string `json:"hversions,omitempty"`
 	// Sib: a second pair of matchers in the same process, with another version list, Accept key and parameter
 	// name; it is asked about every path / header just before the subject is, and judged the same way
 	Sib *Case `json:"sib,omitempty"`
@@ -45,9 +48,13 @@ func decorate(t *rapid.T, v string) string {
 
 func gen(t *rapid.T) Case {
 	var c Case
-	base := rapid.SliceOfNDistinct(rapid.SampledFrom(names), 1, 4, rapid.ID[string]).Draw(t, "versions")
+	base := rapid.SliceOfNDistinct(rapid.SampledFrom(names), 1, 7, rapid.ID[string]).Draw(t, "versions")
 	for _, v := range base {
 		c.Versions = append(c.Versions, decorate(t, v))
+	}
+	if rapid.IntRange(0, 5).Draw(t, "emptyVersion") == 0 {
+		at := rapid.IntRange(0, len(c.Versions)).Draw(t, "emptyAt")
+		c.HVersions = append(append(append([]string{}, c.Versions[:at]...), ""), c.Versions[at:]...)
 	}
 	c.Param = rapid.SampledFrom([]string{"ver", "ver", ""}).Draw(t, "param")
 	c.Key = rapid.SampledFrom([]string{"", "version", "v", "api"}).Draw(t, "key")
@@ -187,12 +194,18 @@ type matchers struct {
 	pv  mux.Matcher
 	hv  mux.Matcher
 	key string
+	// hvers is the header matcher's version list
+	hvers []string
 }
 
 func newMatchers(c Case) *matchers {
 	m := &matchers{c: c, key: c.Key}
 	m.pv = mux.NewPathVersion(c.Param, append([]string{}, c.Versions...)...)
-	m.hv = mux.NewHeaderVersion(c.Param, c.Key, func(error) {}, append([]string{}, c.Versions...)...)
+	m.hvers = c.Versions
+	if len(c.HVersions) > 0 {
+		m.hvers = c.HVersions
+	}
+	m.hv = mux.NewHeaderVersion(c.Param, c.Key, func(error) {}, append([]string{}, m.hvers...)...)
 	if m.key == "" {
 		m.key = "version"
 	}
@@ -260,7 +273,7 @@ func (m *matchers) accept(acc string, nontrivp *bool, classesp *[]string) error 
 			if _, ps, err := mime.ParseMediaType(acc); err == nil {
 				nontriv = true
 				classes = append(classes, "accept-parses")
-				for _, v := range c.Versions {
+				for _, v := range m.hvers {
 					if ps[key] == v {
 						want, wantVer = true, v
 						break
@@ -276,7 +289,7 @@ func (m *matchers) accept(acc string, nontrivp *bool, classesp *[]string) error 
 		ctx.Set("pre", "1")
 		var got bool
 		if v, p := rig.Try(func() { got = hv.Match(r, ctx) }); p {
-			return rig.Violf("panic", "HeaderVersion%v.Match(Accept %q) panicked: %v", c.Versions, acc, v)
+			return rig.Violf("panic", "HeaderVersion%v.Match(Accept %q) panicked: %v", m.hvers, acc, v)
 		}
 		params := snapshot(ctx)
 		ctx.Destroy()
@@ -286,9 +299,9 @@ func (m *matchers) accept(acc string, nontrivp *bool, classesp *[]string) error 
 		}
 		switch {
 		case got != want:
-			return rig.Violf("header-accept", "HeaderVersion%v(key %q).Match(Accept %q) = %v, want %v", c.Versions, key, acc, got, want)
+			return rig.Violf("header-accept", "HeaderVersion%v(key %q).Match(Accept %q) = %v, want %v", m.hvers, key, acc, got, want)
 		case !rig.EqualParams(params, wantParams):
-			return rig.Violf("header-params", "HeaderVersion%v(param %q).Match(Accept %q) = %v left params %v, want %v", c.Versions, c.Param, acc, got, params, wantParams)
+			return rig.Violf("header-params", "HeaderVersion%v(param %q).Match(Accept %q) = %v left params %v, want %v", m.hvers, c.Param, acc, got, params, wantParams)
 		case r.URL.Path != "/v1/x":
 			return rig.Violf("header-touched-path", "HeaderVersion.Match changed URL.Path to %q", r.URL.Path)
 		}
